@@ -117,6 +117,8 @@ def run(ctx, tier):
     for name in cfgs:
         ctx.set_config(name)
         check_exceptions(ctx, fxs[name])
+        from rules import c02_regex
+        c02_regex.check(ctx, fxs[name], "E5")
         check_engagement(ctx, fxs[name])
         check_at_calls(ctx, fxs[name])
     for name in isa:
